@@ -236,6 +236,8 @@ def holder_roles(ctx) -> dict:
                         continue
                     if isinstance(v, ast.Name) and v.id in locals_of_pull:
                         roles["head"].add(f)
+                    elif isinstance(v, ast.Constant) and (isinstance(v.value, bool) or v.value is None):
+                        roles.setdefault("status", set()).add(f)  # (a status slot - "the tail has ended" -, not a sort key)
                     else:
                         roles["key"].add(f)
         roles["pull_locals"] = locals_of_pull
@@ -624,6 +626,14 @@ def r01_3(ctx) -> None:
                             isinstance(sub.func, ast.Attribute) and sub.func.attr in ("popleft", "pop")) and any(
                             any(x[0] in ("item", "result") for x in ctx.vals.expr(u, a.value if isinstance(a, ast.Starred) else a, n))
                             for a in sub.args):
+                        # (a private library helper that hands its argument back as it came in - ``yield remember(item)`` -
+                        # applies nothing to the item: what the call evaluates to is the argument itself)
+                        fv = ctx.vals.expr(u, sub.func, n)
+                        if fv and all(f[0] == "libfn" and f[1].split(".")[-1].startswith("_") for f in fv):
+                            got = ctx.vals.expr(u, sub, n)
+                            handed = frozenset(x for a in sub.args if not isinstance(a, ast.Starred) for x in ctx.vals.expr(u, a, n))
+                            if got and got <= handed and all(x[0] in ("item", "result") for x in got):
+                                continue
                         bad += 1
                         ctx.fail("R01.3", u, n, f"`{norm(sub.func)}(...)` is applied to an item on its way from the source "
                                  "to the consumer", node=n)
